@@ -241,6 +241,10 @@ func Float64ToTime(f float64, location *time.Location) time.Time {
 		dec := ar[1] + strings.Repeat("0", 9-len(ar[1]))
 		return strconv.ParseInt(dec, 10, 64)
 	})()
+	if f < 0 {
+		// The fraction of a negative number counts backwards like its integer part.
+		nsec = -nsec
+	}
 
 	return TimeFromUnixTime(sec, nsec, location)
 }
